@@ -92,6 +92,72 @@ def build_harness():
         return rc == 0, out
 
 
+def build_app_test(app):
+    """Build a test binary of a package-main app of /repo with /verif's overlay test injected
+    (go test -c -overlay; /repo is not touched, go.mod/go.sum are used through copies)."""
+    with Lock("gobuild"):
+        mod = os.path.join(WORK, "modcopy")
+        os.makedirs(mod, exist_ok=True)
+        shutil.copyfile(os.path.join(REPO, "go.mod"), os.path.join(mod, "go.mod"))
+        shutil.copyfile(os.path.join(REPO, "go.sum"), os.path.join(mod, "go.sum"))
+        ov = os.path.join(WORK, "overlay_%s.json" % app)
+        src = os.path.join(HARNESS, "overlay", app, "zz_verif_test.go")
+        with open(ov, "w") as f:
+            json.dump({"Replace": {os.path.join(REPO, "apps", app, "zz_verif_test.go"): src}}, f)
+        out_bin = os.path.join(HARNESS, "bin", app + ".test")
+        rc, out = sh(["go", "test", "-c", "-vet=off", "-modfile=" + os.path.join(mod, "go.mod"), "-overlay", ov,
+                      "-o", out_bin, "./apps/" + app], cwd=REPO, env=GOENV, timeout=900)
+        return rc == 0, out, out_bin
+
+
+def build_app(app):
+    """Build a package-main app of /repo as a binary."""
+    with Lock("gobuild"):
+        mod = os.path.join(WORK, "modcopy")
+        os.makedirs(mod, exist_ok=True)
+        shutil.copyfile(os.path.join(REPO, "go.mod"), os.path.join(mod, "go.mod"))
+        shutil.copyfile(os.path.join(REPO, "go.sum"), os.path.join(mod, "go.sum"))
+        out_bin = os.path.join(HARNESS, "bin", "app_" + app.replace("/", "_"))
+        rc, out = sh(["go", "build", "-modfile=" + os.path.join(mod, "go.mod"), "-o", out_bin, "./apps/" + app],
+                     cwd=REPO, env=GOENV, timeout=900)
+        return rc == 0, out, out_bin
+
+
+def run_app_test(test_bin, cases, prop, timeout=1800, shards=8):
+    """Run an overlay test binary over case lines (sharded); returns observation lines."""
+    d = os.path.join(WORK, prop)
+    os.makedirs(d, exist_ok=True)
+    cases = list(cases)
+    shards = max(1, min(shards, len(cases) // 20 or 1))
+    size = (len(cases) + shards - 1) // shards
+    chunks = [cases[i:i + size] for i in range(0, len(cases), size)]
+
+    def one(ic):
+        i, c = ic
+        cf = os.path.join(d, "cases_%d.txt" % i)
+        of = os.path.join(d, "obs_%d.txt" % i)
+        wd = os.path.join(d, "scratch_%d" % i)
+        shutil.rmtree(wd, ignore_errors=True)
+        os.makedirs(wd, exist_ok=True)
+        with open(cf, "w") as f:
+            f.write("\n".join(c) + "\n")
+        env = dict(GOENV, VERIF_CASES=cf, VERIF_OUT=of, VERIF_WORK=wd)
+        rc, out = sh([test_bin, "-test.run", "TestVerifRun", "-test.timeout", "%ds" % timeout], cwd=wd, env=env, timeout=timeout + 30)
+        lines = open(of).read().splitlines() if os.path.exists(of) else []
+        shutil.rmtree(wd, ignore_errors=True)
+        return rc, out, lines
+
+    from concurrent.futures import ThreadPoolExecutor
+    with ThreadPoolExecutor(max_workers=len(chunks)) as ex:
+        results = list(ex.map(one, enumerate(chunks)))
+    lines, err = [], None
+    for c, (rc, out, l) in zip(chunks, results):
+        if (rc != 0 or len(l) != len(c)) and not err:
+            err = "test binary exit %d, %d of %d lines: %s" % (rc, len(l), len(c), out[-1500:])
+        lines.extend(l)
+    return lines, err
+
+
 def gen_facts():
     """Regenerate coq/gen/*.v from /repo.  Returns (ok, text, degraded list)."""
     if not os.path.exists(GENFACTS_BIN):
@@ -292,8 +358,13 @@ class Result:
         if self.violations:
             replay_path = os.path.join(REPLAYS, "%s-%d-%s.json" % (self.prop_id, self.seed, self.tier))
             with open(replay_path, "w") as f:
+                by_why, keep = {}, []
+                for v in self.violations:
+                    by_why[v["why"]] = by_why.get(v["why"], 0) + 1
+                    if by_why[v["why"]] <= 8:
+                        keep.append(v)
                 json.dump(dict(property=self.prop_id, seed=self.seed, tier=self.tier, kind="failing-input",
-                               failing=self.violations[:20], proof_ok=self.proof_ok, corr_ok=self.corr_ok,
+                               failing=keep[:60], counts_by_reason=by_why, proof_ok=self.proof_ok, corr_ok=self.corr_ok,
                                proof_notes=self.proof_notes, corr_notes=self.corr_notes[:20]), f, indent=1)
             lines.append("VIOLATION property=%s replay=%s" % (self.prop_id, replay_path))
             exit_code = 1
